@@ -99,7 +99,7 @@ def scatter(spec, rng, nmod=None, nsplit=None):
         pick = lambda: rng.randrange(spec.ni)
         mem = {"mod": rng.randrange(nmod), "w": 4, "depth": rng.choice([2, 3, 4]), "wa": pick(), "wd": pick(), "we": pick(),
                "ra": pick(), "transparent": rng.random() < 0.5, "init": [rng.getrandbits(4) for _ in range(4)],
-               "sibling": rng.choice([0, 0, 1, 2])}
+               "sibling": rng.choice([0, 0, 1, 2]), "gran": rng.choice([None, None, 1, 2])}
     return {"spec": spec.d, "tree": tree, "anon": anon, "place": place, "splits": splits, "mem": mem}
 
 
@@ -172,7 +172,7 @@ def build(design):
                 mods[me["mod"]].d.comb += [awp.addr.eq(b0.sigs[me["wa"]][:1]), awp.data.eq(b0.sigs[me["wd"]][:2] + k), awp.en.eq(b0.sigs[me["we"]][:1])]
         mem = Memory(shape=me["w"], depth=me["depth"], init=me["init"][:me["depth"]])
         mods[me["mod"]].submodules.mem = mem
-        wp = mem.write_port()
+        wp = mem.write_port(granularity=me.get("gran"))       # (enable lanes: one enable bit per `gran` data bits)
         rc = mem.read_port(domain="comb")
         mm = mods[me["mod"]]
         ins = b0.sigs
@@ -226,15 +226,21 @@ class Ref:
         if me:
             aw = max(me["depth"] - 1, 0).bit_length()
             wa, ra = pre[me["wa"]] & mask(aw), pre[me["ra"]] & mask(aw)
-            wd, we = pre[me["wd"]] & mask(me["w"]), pre[me["we"]] & 1
+            gran = me.get("gran") or me["w"]
+            lanes = me["w"] // gran
+            wd, we = pre[me["wd"]] & mask(me["w"]), pre[me["we"]] & mask(lanes)
+            bitmask = 0                # data bits whose lane is enabled
+            for ln in range(lanes):
+                if (we >> ln) & 1:
+                    bitmask |= mask(gran) << (ln * gran)
             if ra < me["depth"]:
                 self.rdata = self.rows[ra]
-                if me["transparent"] and we and wa == ra:
-                    self.rdata = wd
+                if me["transparent"] and wa == ra:
+                    self.rdata = (self.rdata & ~bitmask) | (wd & bitmask)
             else:
                 self.rdata = None          # unspecified
-            if we and wa < me["depth"]:
-                self.rows[wa] = wd
+            if wa < me["depth"]:
+                self.rows[wa] = (self.rows[wa] & ~bitmask) | (wd & bitmask)
         self.base.clock_edge(rst)
         for k, sp in enumerate(self.design["splits"]):
             for lo, hi, dom, e, mod in sp["parts"]:
